@@ -34,6 +34,22 @@ MUTS = {
     "c04_unordered_set_drops_an_element": ("C04", "break", [   # must stay a VIOLATION although unordered order is a known finding
         ("include/quill/std/UnorderedSet.h", "        arg.emplace(Codec<Key>::decode_arg(buffer));\n      }\n",
          "        arg.emplace(Codec<Key>::decode_arg(buffer));\n      }\n      if (arg.size() > 1) { arg.erase(arg.begin()); }\n")]),
+    # ---- round-2 seeded changes (independent agent): must all be reported
+    "c04_char_not_string_related": ("C04", "break", [
+        ("include/quill/core/DynamicFormatArgStore.h",
+         "                  (mapped_type == fmtquill::detail::type::custom_type) ||\n                  (mapped_type == fmtquill::detail::type::char_type))\n    {\n      _has_string_related_type = true;",
+         "                  (mapped_type == fmtquill::detail::type::custom_type))\n    {\n      _has_string_related_type = true;")]),
+    "c04_tuple_cache_index_by_value": ("C04", "break", [
+        ("include/quill/std/Tuple.h", "      [&conditional_arg_size_cache, &conditional_arg_size_cache_index, &buffer](auto const&... elems)\n      {\n        ((Codec<std::decay_t<decltype(elems)>>::encode(",
+         "      [&conditional_arg_size_cache, conditional_arg_size_cache_index, &buffer](auto const&... elems) mutable\n      {\n        ((Codec<std::decay_t<decltype(elems)>>::encode(")]),
+    "c11_pair_copied": ("C11", "break", [
+        ("include/quill/std/Pair.h", "    size_t total_size = Codec<T1>::compute_encoded_size(conditional_arg_size_cache, arg.first);\n    total_size += Codec<T2>::compute_encoded_size(conditional_arg_size_cache, arg.second);",
+         "    auto const [first, second] = arg;\n    size_t total_size = Codec<T1>::compute_encoded_size(conditional_arg_size_cache, first);\n    total_size += Codec<T2>::compute_encoded_size(conditional_arg_size_cache, second);"),
+        ("include/quill/std/Pair.h", "    Codec<T1>::encode(buffer, conditional_arg_size_cache, conditional_arg_size_cache_index, arg.first);\n    Codec<T2>::encode(buffer, conditional_arg_size_cache, conditional_arg_size_cache_index, arg.second);",
+         "    auto const [first, second] = arg;\n    Codec<T1>::encode(buffer, conditional_arg_size_cache, conditional_arg_size_cache_index, first);\n    Codec<T2>::encode(buffer, conditional_arg_size_cache, conditional_arg_size_cache_index, second);")]),
+    "c11_preallocate_default_options": ("C11", "break", [
+        ("include/quill/Frontend.h", "    auto const volatile spsc_queue_capacity = detail::get_local_thread_context<TFrontendOptions>()\n                                                ->template get_spsc_queue<TFrontendOptions::queue_type>()",
+         "    auto const volatile spsc_queue_capacity = detail::get_local_thread_context<FrontendOptions>()\n                                                ->template get_spsc_queue<FrontendOptions::queue_type>()")]),
     # ---- C04 / C11, benign
     "benign_inline_capacity_8": ("C04+C11", "benign", [
         ("include/quill/core/InlinedVector.h", "using SizeCacheVector = InlinedVector<uint32_t, 12>;", "using SizeCacheVector = InlinedVector<uint32_t, 8>;")]),
